@@ -65,6 +65,8 @@ for sz in ['e3', 'e8', 'e16', 'e24']:
 for sz in ['z0', 'e8', 'd8', 'e12', 'e2']:
     add('k2_insert', 'insert_typed_' + sz, 'insert_owned::<%s>(SRC_TYPED, false, %s, false, mk_%s)' % (TY[sz], 'true' if sz == 'd8' else 'false', sz),
         props=['C01', 'C03', 'C05'], tier=tier_for(sz, {'d8', 'z0'}), cost=200 if sz in SLOW else 30, inputs=IN_OWNED)
+add('k2_insert', 'insert_unchecked_sizeless_e8', 'insert_owned::<E8>(SRC_SIZELESS, false, true, false, mk_e8)', props=['C01', 'C03', 'C05'], tier='q', cost=10, inputs=IN_OWNED)
+add('k2_insert', 'push_unchecked_sizeless_e8', 'insert_owned::<E8>(SRC_SIZELESS, true, true, false, mk_e8)', props=['C01', 'C05'], tier='q', cost=8, inputs=IN_OWNED)
 add('k2_insert', 'insert_raw_fixed_e8', 'insert_owned::<E8>(SRC_RAW, false, true, true, mk_e8)', props=['C01', 'C11', 'C19'], tier='q', cost=10, inputs=IN_OWNED)
 add('k2_insert', 'insert_typed_fixed_e8', 'insert_owned::<E8>(SRC_TYPED, false, false, true, mk_e8)', props=['C11', 'C19'], tier='q', cost=10, inputs=IN_OWNED)
 add('k2_insert', 'push_raw_fixed_e8', 'insert_owned::<E8>(SRC_RAW, true, true, true, mk_e8)', props=['C11', 'C19'], tier='q', cost=8, inputs=IN_OWNED)
